@@ -32,15 +32,32 @@ def tools_dir():
     return d
 
 
-def run_tool(tdir, invoke, tool, args, timeout=120, stdin=None):
+def path_events(trace_file):
+    """names of the path hook points a traced tool run went through (BIGTOOLS_VERIF_TRACE)"""
+    names = set()
+    try:
+        for line in open(trace_file):
+            f = line.split()
+            if f and f[0].startswith("path."):
+                names.add(f[0])
+        os.remove(trace_file)
+    except OSError:
+        pass
+    return names
+
+
+def run_tool(tdir, invoke, tool, args, timeout=120, stdin=None, trace=None):
     if invoke == "multicall":
         argv = [os.path.join(tdir, "bigtools"), tool] + args
     elif invoke == "mixedcase":
         argv = [os.path.join(tdir, MIXED.get(tool, tool))] + args
     else:
         argv = [os.path.join(tdir, tool)] + args
+    env = None
+    if trace:
+        env = dict(os.environ, BIGTOOLS_VERIF_TRACE=trace)
     try:
-        p = subprocess.run(argv, stdout=subprocess.PIPE, stderr=subprocess.PIPE, timeout=timeout, input=stdin)
+        p = subprocess.run(argv, stdout=subprocess.PIPE, stderr=subprocess.PIPE, timeout=timeout, input=stdin, env=env)
         return p.returncode, p.stdout.decode(errors="replace"), p.stderr.decode(errors="replace")
     except subprocess.TimeoutExpired:
         return 124, "", "timeout"
@@ -158,7 +175,8 @@ def c16_case(tdir, d, k, b):
         a1.append(("-blockSize=%d" if ucsc else "--block-size=%d") % cfg["bs"])
     if cfg["zooms"]:
         a1.append("-zooms=2,8" if ucsc else "--zooms=2,8")
-    rc1, _, err1 = run_tool(tdir, cfg["invoke"], "bedgraphtobigwig" if kind == "bw" else "bedtobigbed", a1, stdin=stdin_data)
+    tr1, tr2 = os.path.join(d, "tr1_%s.txt" % tag), os.path.join(d, "tr2_%s.txt" % tag)
+    rc1, _, err1 = run_tool(tdir, cfg["invoke"], "bedgraphtobigwig" if kind == "bw" else "bedtobigbed", a1, stdin=stdin_data, trace=tr1)
     a2 = [big, back, "-t", str(cfg["bthreads"])]
     if cfg["binmem"]:
         a2.append("--inmemory")
@@ -173,11 +191,16 @@ def c16_case(tdir, d, k, b):
         a2.append(("-end=%d" if ucsc else "--end=%d") % re_)
     rc2, err2 = 1, ""
     if rc1 == 0 and os.path.exists(big):
-        rc2, _, err2 = run_tool(tdir, cfg["invoke"], "bigwigtobedgraph" if kind == "bw" else "bigbedtobed", a2)
+        rc2, _, err2 = run_tool(tdir, cfg["invoke"], "bigwigtobedgraph" if kind == "bw" else "bigbedtobed", a2, trace=tr2)
+    # which internal paths actually ran (hook points `path.*` recorded through BIGTOOLS_VERIF_TRACE)
+    ev = path_events(tr1) | path_events(tr2)
+    seen_path = {"source": sorted(x[len("path.source."):] for x in ev if x.startswith("path.source.")),
+                 "passes": 1 if "path.pass.single" in ev else (2 if {"path.pass.first", "path.pass.zoom"} <= ev else 0),
+                 "back": sorted(x[len("path.back."):] for x in ev if x.startswith("path.back."))}
     rest_ids = {bed_rest(it[3]): it[3] for it in items} if kind == "bb" else {}
     recs = parse_back(kind, back, rest_ids) if rc2 == 0 else None
     obs = {"rc1": rc1, "rc2": rc2, "parsed": 1 if recs is not None else 0, "back": recs or [], "back3": [[r[1], r[2], r[3]] for r in (recs or [])],
-           "err": (err1 + err2)[-300:]}
+           "err": (err1 + err2)[-300:], "seen": seen_path}
     for p in (inp, sizes, big, back):
         try:
             os.remove(p)
@@ -219,6 +242,14 @@ def c16_main():
         c = o["cfg"]
         run.count_case(json.dumps(c, sort_keys=True), c["threads"] > 1 or c["style"] == "ucsc" or c["restrict"] != "none")
     bad = validate_obs("Obs_Cli", "Obs.cfg", lines, run.wd, "obs", shards=4)
+    run.drift += len(validate_obs.last_drift)
+    for i in validate_obs.last_drift[:3]:
+        log("[C16] MODEL-DRIFT detail: paths seen %s for cfg %s" % (json.dumps(obs[i]["obs"]["seen"]), json.dumps(obs[i]["cfg"])))
+    seen = {}
+    for o in obs:
+        k = json.dumps(o["obs"]["seen"], sort_keys=True)
+        seen[k] = seen.get(k, 0) + 1
+    run.cov["internal_paths_observed"] = seen
     run.cov["traces_validated_against_impl"] += len(obs)
     run.cov["path_classes_reached"] = sorted(classes)
     tags = {}
@@ -236,7 +267,7 @@ def c16_main():
     run.sample({"cfg": obs[0]["cfg"], "argv1": obs[0]["argv1"], "argv2": obs[0]["argv2"], "back_head": obs[0]["obs"]["back"][:3]})
     run.assumptions += ["values are compared after narrowing to f32 (tokens of a fixed value table), extra columns byte for byte",
                         "--parallel auto only selects the parallel source for inputs >= 200 MB: the parallel path is reached with -p yes",
-                        "which internal path ran is derived from the configuration (Cli!PathClass), not observed"]
+                        "which internal path ran is observed (hook points path.* via BIGTOOLS_VERIF_TRACE) and compared with Cli!PathClass; the runtime flavour is not observed"]
     return run.finish()
 
 
